@@ -4,6 +4,9 @@ Model of `src/tex.rs`: `TexHeader` (80 bytes, little endian), `Texture::from_exi
 `Texture::decode`.
 
 `Except.error .panic` = the Rust code panics; `.ok none` = it returns `None`.
+Mirrors the code with the fix "Texture::from_existing checks the payload length before allocating
+and decoding": a payload shorter than the header's dimensions need is `None` (it was an index panic /
+an `unwrap` of the block decoder's `Err`).
 `TextureAttribute` is a bitflags-1.x struct read by binrw as a plain `u32` (unknown bits are kept);
 `TextureFormat` is `#[brw(repr = u32)]`: any other value is a parse error (→ `None`).
 -/
@@ -78,13 +81,19 @@ def TEXTURE_TYPE3_D : UInt32 := 0x1000000
 def shuffle (x : UInt32) : Bytes :=
   [(x >>> 16).toUInt8, (x >>> 8).toUInt8, x.toUInt8, (x >>> 24).toUInt8]
 
-/-- `Texture::decode(src, width, height, decode_func)` -/
-def decode (src : Bytes) (width height : Nat)
-    (decodeFunc : Bytes → Nat → Nat → Array UInt32 → Except Err (Array UInt32)) : Except Err Bytes :=
+/-- `Texture::decode(src, width, height, block_size, decode_func)`: the payload must hold every
+4x4 block (`None` otherwise, before the image is allocated); `decode_func(..).ok()?` turns the two
+`Err` results of the block decoder into `None`.  The `checked_mul`s cannot overflow a 64-bit `usize`
+(`width`, `height / depth` come from `u16` header fields), so they are `Nat` products. -/
+def decode (src : Bytes) (width height blockSize : Nat)
+    (decodeFunc : Bytes → Nat → Nat → Array UInt32 → Except Err (Array UInt32)) : Except Err (Option Bytes) :=
+  let blocks := (width + 4 - 1) / 4 * ((height + 4 - 1) / 4)     -- `div_ceil(4)`
+  if src.length < blocks * blockSize then .ok none else
   let image : Array UInt32 := Array.replicate (width * height) 0
   match decodeFunc src width height image with
-  | .error _ => .error .panic                      -- `.unwrap()`
-  | .ok image => .ok (image.toList.flatMap shuffle)
+  | .error .panic => .error .panic
+  | .error _ => .ok none                           -- `.ok()?`
+  | .ok image => .ok (some (image.toList.flatMap shuffle))
 
 /-- the `B8G8R8A8` loop: `n` pixels left, `src` is `src[offset..]`; the output is built in order
 (`dst[offset+k]` is written exactly once, at the same offset as the read) -/
@@ -122,20 +131,29 @@ def fromExisting (buffer : Bytes) : Except Err (Option Texture) :=
     let w := header.width.toNat
     let h := header.height.toNat
     let d := header.depth.toNat
-    let dst : Except Err Bytes :=
+    let dst : Except Err (Option Bytes) :=
       match header.format with
       | .B4G4R4A4 =>
-        if d = 0 ∧ w * h ≠ 0 then .error .panic else     -- `dst[dst_offset]` on an empty `dst`
-        match b4g4r4a4Loop (w * h) src with
-        | .ok out => .ok (out ++ List.replicate (w * h * d * 4 - out.length) 0)
+        let pixels := w * h
+        let dstLen := pixels * d * 4
+        -- "reject a payload that is too short (or a zero depth) before allocating the output"
+        if src.length < dstLen / 2 ∨ src.length < pixels * 2 ∨ dstLen < pixels * 4 then .ok none else
+        match b4g4r4a4Loop pixels src with
+        | .ok out => .ok (some (out ++ List.replicate (dstLen - out.length) 0))
         | .error e => .error e
-      | .B8G8R8A8 => bgraLoop (w * h * d) src
-      | .BC1 => decode src w (h * d) decodeBc1
-      | .BC3 => decode src w (h * d) decodeBc3
-      | .BC5 => decode src w (h * d) decodeBc5
+      | .B8G8R8A8 =>
+        -- "reject a payload that is too short before allocating the output"
+        if src.length < w * h * d * 4 then .ok none else
+        match bgraLoop (w * h * d) src with
+        | .ok out => .ok (some out)
+        | .error e => .error e
+      | .BC1 => decode src w (h * d) 8 decodeBc1
+      | .BC3 => decode src w (h * d) 16 decodeBc3
+      | .BC5 => decode src w (h * d) 16 decodeBc5
     match dst with
     | .error e => .error e
-    | .ok rgba =>
+    | .ok none => .ok none
+    | .ok (some rgba) =>
       .ok (some {
         textureType := if header.attrs &&& TEXTURE_TYPE3_D = TEXTURE_TYPE3_D
                        then .ThreeDimensional else .TwoDimensional
